@@ -51,6 +51,8 @@ def main():
 
             def region(**kw):
                 return eval(code, g, kw)
+        driver.ACTIVE_KNOWN.clear()
+        driver.ACTIVE_KNOWN.update(spec.get('known_tags') or [])
         deadline = t0 + spec.get('cap', 60)
         res = driver.explore(fn, deadline, region=region,
                              per_path_timeout=spec.get('per_path_timeout'))
